@@ -378,7 +378,7 @@ class Env:
 
     def __post_init__(self) -> None:
         self.clock = VClock(self)
-        self.n = {"op": 0, "poll": 0, "sleep": 0, "handler": 0, "before": 0}
+        self.n = {"op": 0, "poll": 0, "sleep": 0, "handler": 0, "before": 0, "strat": 0}
         self.inv: dict[str, int] = {}  # invocation counters per callback name
         self.call_idx = 0
         self.call: dict = {}
@@ -410,6 +410,14 @@ class Env:
             self.trace.append(("args_mangled", where, repr(got)))
 
     def maybe_fault(self, name: str, i: int) -> None:
+        if name == "strategy":
+            k = self.n["strat"]
+            self.n["strat"] = k + 1
+            st = self.call.get("steal")
+            if st and k in st and self.budget is not None:
+                # another user of the shared budget takes a token while this run is computing its delay
+                r = self.budget_orig(1)
+                self.trace.append(("budget_ext", r, self.now(), 1))
         f = self.faults.get((name, i)) or self.faults.get((name, "always"))
         if f is not None:
             self.trace.append(("fault", name, i, f))
@@ -968,6 +976,7 @@ def make_budget(env: Env, spec: dict) -> Budget:
         return r
 
     b.consume = consume  # type: ignore[method-assign]
+    env.budget_orig = orig
     return b
 
 
